@@ -90,7 +90,8 @@ def build_jobs(prop, plan, tier, seed, known_sigs):
             failed.append(dict(spec=sp['id'], cfg=c, log=log[-1500:]))
             continue
         jobs.append(dict(spec=sp, cfg=c, bin=b, prop=prop, oracle=plan['oracle'], cp=plan['cp'], max_examples=nex,
-                         seed=seed, known_sigs=tuple(known_sigs), env=plan.get('env'), tier=tier))
+                         seed=seed, known_sigs=tuple(known_sigs), env=plan.get('env'), tier=tier, mode=plan.get('mode'),
+                         keep_cases=plan.get('keep_cases', 0)))
     return specs, jobs, failed
 
 
@@ -110,9 +111,9 @@ def replay_failure(prop, plan, spec, cfg, concrete, times=3):
             ex = engine.Exec(spec, static, s, auto_probe=plan['cp'].get('auto_probe', False))
             try:
                 per_op = ex.replay(concrete)
-            except SUT.SutCrash as e:
+            except (SUT.SutCrash, SUT.SutHang) as e:
                 out.append('SUT crashed rc=%s' % e.rc)
-                sig = 'crash'
+                sig = 'hang' if e.rc == 'hang' else 'crash'
                 continue
             ctx = oracles.Ctx(spec, static, cfg, concrete, per_op, dict(prop=prop, tier='replay', idmap=s.idmap))
             try:
@@ -214,6 +215,13 @@ def run_check(prop, tier):
             confirmed += 1
         else:
             errors.append(dict(spec=job['spec']['id'], cfg=job['cfg'], error='flaky failure (replayed %s): %s' % (msgs, f['msg'])))
+    post_cov = {}
+    if plan.get('post') and rc == 0:
+        post_lines, post_rc, post_cov = globals()[plan['post']](prop, plan, tier, jobs, results)
+        out_lines += post_lines
+        if post_rc:
+            rc = 1
+            confirmed += post_rc
     floor = plan.get('floor', (50, 200))[0 if tier == 'quick' else 1]
     harness_error = False
     if errors:
@@ -229,7 +237,7 @@ def run_check(prop, tier):
                             binaries=len(jobs), configs_not_compiling=[dict(spec=f['spec'], cfg=build.CONFIGS[f['cfg']]) for f in failed_builds],
                             classes=classes, regression_replays=reg_total, known_findings=[k['sig'] for k in known],
                             harness_errors=errors[:10], engine='hypothesis %s (seeded, database=None)' % __import__('hypothesis').__version__,
-                            examples_per_binary=plan['examples'][0 if tier == 'quick' else 1]),
+                            examples_per_binary=plan['examples'][0 if tier == 'quick' else 1], **post_cov),
               assumptions=plan.get('assumptions', []), wall_s=round(time.time() - t0, 2), violations=confirmed + reg_fail)
     os.makedirs(EVID, exist_ok=True)
     json.dump(ev, open(os.path.join(EVID, prop + '.json'), 'w'), indent=1, default=str)
@@ -244,3 +252,54 @@ def run_check(prop, tier):
             print('HARNESS-ERROR:', json.dumps(e)[:1500])
         return 2
     return rc
+
+
+def c12_uninit(prop, plan, tier, jobs, results):
+    """'no dependence on indeterminate values': the kept fault cases are replayed (a) on two extra builds that fill
+    automatic variables with zero / with a pattern - every observable output must coincide - and (b) under valgrind."""
+    import subprocess
+    lines, bad = [], 0
+    cfgs = plan.get('uninit_cfgs', (1, 5, 7)) if tier == 'quick' else plan['configs']
+    sel = [(j, r) for j, r in zip(jobs, results) if j['cfg'] in cfgs and r.get('kept')]
+    todo = []
+    for j, r in sel:
+        cpp = emit.emit_cpp(j['spec'])
+        for fl in ('zero', 'pattern', 'vg'):
+            todo.append((cpp, j['cfg'], fl, (), ()))
+    built = build.build_many(todo)
+    diff_cases = vg_cases = 0
+    k = 0
+    for j, r in sel:
+        bz, bp, bv = built[k][0], built[k + 1][0], built[k + 2][0]
+        k += 3
+        if not (bz and bp and bv):
+            continue
+        inputs = ['R ' + cases.to_line(c) for c in r['kept']]
+        outs = []
+        for b in (bz, bp):
+            p = subprocess.run([b], input='\n'.join(inputs) + '\nquit\n', capture_output=True, text=True, timeout=300)
+            outs.append(p.stdout.split('\n')[1:])
+        for n, (a, b) in enumerate(zip(outs[0], outs[1])):
+            if n >= len(inputs):
+                break
+            diff_cases += 1
+            if a != b:
+                f = dict(case=r['kept'][n], msg='C12: observable output depends on the initial value of automatic variables (zero-filled vs pattern-filled build differ): %s | %s' % (a[-300:], b[-300:]), sig='uninit_diff')
+                pth = save_replay(prop, j['spec'], j['cfg'], f)
+                lines.append('VIOLATION property=%s replay=%s' % (prop, pth))
+                lines.append('  ' + f['msg'][:600])
+                bad += 1
+                break
+        nvg = len(inputs) if tier == 'thorough' else min(3, len(inputs))
+        for n in range(nvg):
+            p = subprocess.run(['valgrind', '-q', '--error-exitcode=99', bv], input=inputs[n] + '\nquit\n', capture_output=True, text=True, timeout=600)
+            vg_cases += 1
+            if p.returncode == 99 or 'uninitialised' in p.stderr:
+                where = [l for l in p.stderr.split('\n') if 'boost/msm' in l][:3]
+                f = dict(case=r['kept'][n], msg='C12: valgrind reports use of uninitialised data: %s %s' % (p.stderr.split('\n')[0][:200], ' | '.join(where)[:500]), sig='uninit_valgrind')
+                pth = save_replay(prop, j['spec'], j['cfg'], f)
+                lines.append('VIOLATION property=%s replay=%s' % (prop, pth))
+                lines.append('  ' + f['msg'][:700])
+                bad += 1
+                break
+    return lines, bad, dict(uninit=dict(zero_vs_pattern_cases=diff_cases, valgrind_cases=vg_cases, configurations=[build.CONFIGS[c] for c in cfgs]))
